@@ -498,6 +498,18 @@ impl Engine {
         });
     }
 
+    pub fn add_evaluations(&self, n: u64) {
+        self.evaluations.fetch_add(n, Ordering::SeqCst);
+        self.exhaustive.store(false, Ordering::SeqCst);
+    }
+
+    /// A violation found by an external engine (libFuzzer) whose replay file
+    /// already exists; the VIOLATION line has been printed by the caller.
+    pub fn note_external_violation(&self, subcheck: &str, case: Value, fail: Fail, replay: PathBuf) {
+        let known = self.known.iter().any(|k| k.signature == fail.sig);
+        self.violations.lock().unwrap().push(Violation { subcheck: subcheck.to_string(), case, fail, replay, known });
+    }
+
     fn note_sub(&self, name: &str, kind: &str, evals: u64, exhaustive: bool, t: f64) {
         self.any_sub.store(true, Ordering::SeqCst);
         if !exhaustive {
